@@ -29,7 +29,7 @@ theorem recv_msg_valid (d : Dict) :
       · simp at h
       · cases hs : readStep b ev rest with
         | oom => simp [hs] at h
-        | err b1 => simp [hs] at h
+        | err b1 k => simp [hs] at h
         | got b1 rest1 n =>
           simp only [hs] at h
           split at h
